@@ -41,7 +41,12 @@ def _frame(obj, name):
 def check(case):
     from fairlearn.metrics import MetricFrame
 
+    from vf import gen
+
     kw = M.build_metricframe_kwargs(case)
+    snap = gen.snapshot(kw)
+    MetricFrame(**kw)
+    M.need(gen.unchanged(snap, kw), "MetricFrame modified one of its arguments in place (labels, predictions, features or sample parameters)")
     if case.get("twice"):
         # the frame under test is the *second* one built from the very same argument objects: constructing a
         # MetricFrame must not consume or modify what the caller passed in (dicts, arrays, Series)
